@@ -24,8 +24,10 @@ Inductive sexpr :=
 | XOrElse (a b : sexpr)                          (* a || b: b is not evaluated when a holds *)
 | XAndAlso (a b : sexpr)                         (* a && b: b is not evaluated when a fails *)
 | XNot (a : sexpr)                               (* !a *)
-| XIsNil (s : string).                           (* s == nil: false for a slice of positive length; for an empty one the
+| XIsNil (s : string)                            (* s == nil: false for a slice of positive length; for an empty one the
                                                     evaluator does not say (nil and empty are not told apart) *)
+| XCall (f : func) (s : string) (lo : sexpr) (hi : option sexpr).   (* f(s[lo:hi]) for a function f of the first fragment
+                                                    (MiniGo/Syntax.v) that takes one byte slice and returns an integer *)
 
 Inductive sstmt :=
 | TDecl (x : string) (t : ty) (e : sexpr)                 (* x := e *)
@@ -134,6 +136,22 @@ Fixpoint seval (st : state) (x : sexpr) : option Z :=
       match slice_of st s with
       | Some (_ :: _) => Some 0
       | _ => None
+      end
+  | XCall f s lo hi =>
+      match slice_of st s, seval st lo with
+      | Some l, Some vlo =>
+          let vhi := match hi with
+                     | None => Some (Z.of_nat (List.length l))
+                     | Some h => seval st h
+                     end in
+          match vhi with
+          | Some vh =>
+              if (0 <=? vlo) && (vlo <=? vh) && (vh <=? Z.of_nat (List.length l))
+              then run f [firstn (Z.to_nat (vh - vlo)) (skipn (Z.to_nat vlo) l)] []
+              else None
+          | None => None
+          end
+      | _, _ => None
       end
   end.
 
